@@ -13,8 +13,9 @@ out = """# Seeded property-breaking changes
 Each directory holds one change to tschoonj/xraylib produced by a fresh sub-agent that was given ONLY the text of one property and its own scratch
 worktree (nothing from /verif), together with its demonstration and `meta.json`. Every change compiles, passes the repository's 33 stable tests, and its
 demonstration was confirmed here with `tools/seeddemo.py` (passes on the unchanged tree, fails with the change). `tools/seedtest.py seeded/<id> [checks...]`
-applies a change in a scratch worktree and runs the checks against it. None of these changes is ever committed to /repo. Directories `<id>-2` are a second
-round in which the sub-agent was additionally told which clause of the property text to aim at (a different one from the first round).
+applies a change in a scratch worktree and runs the checks against it. None of these changes is ever committed to /repo. Directories `<id>-2` .. `<id>-5`
+are further rounds in which the sub-agent was additionally told which clause of the property text to aim at (a different one each round) and, from the third round on,
+to prefer defects that need a rare coincidence of arguments, a boundary value or a multi-step sequence.
 
 | id | property | needs, in order to manifest | what was run / which checks report it |
 |---|---|---|---|
